@@ -5,6 +5,7 @@ import (
 	"errors"
 	"fmt"
 	"maps"
+	"slices"
 	"sort"
 	"sync"
 
@@ -54,6 +55,20 @@ func pathConfCanBeUpdated(oldPathConf *conf.Path, newPathConf *conf.Path) bool {
 	clone.RPICameraBitrate = newPathConf.RPICameraBitrate
 
 	return newPathConf.Equal(clone)
+}
+
+func captureGroupsEqual(matches1 []string, matches2 []string) bool {
+	var groups1 []string
+	if len(matches1) > 1 {
+		groups1 = matches1[1:]
+	}
+
+	var groups2 []string
+	if len(matches2) > 1 {
+		groups2 = matches2[1:]
+	}
+
+	return slices.Equal(groups1, groups2)
 }
 
 type pathSetHLSServerRes struct {
@@ -245,9 +260,16 @@ func (pm *pathManager) doReloadConf(newPaths map[string]*conf.Path) {
 
 	// process existing paths
 	for pathName, pa := range pm.paths {
-		newPathConf, _, err := conf.FindPathConf(newPaths, pathName)
+		newPathConf, newMatches, err := conf.FindPathConf(newPaths, pathName)
 		// path does not have a config anymore: delete it
 		if err != nil {
+			pm.doClosePath(pa)
+			continue
+		}
+
+		// regular expression capture groups have changed: delete the path,
+		// since groups are embedded in source URLs and hook environments
+		if !captureGroupsEqual(pa.matches, newMatches) {
 			pm.doClosePath(pa)
 			continue
 		}
